@@ -15,6 +15,7 @@ from myst_parser.config.main import (
 )
 from myst_parser.mdit_to_docutils.sphinx_ import SphinxRenderer
 from myst_parser.mdit_to_docutils.transforms import (
+    CheckTransitions,
     CollectFootnotes,
     ResolveAnchorIds,
     SortFootnotes,
@@ -54,6 +55,7 @@ class MystParser(SphinxParser):
             SortFootnotes,
             CollectFootnotes,
             ResolveAnchorIds,
+            CheckTransitions,
         ]
 
     def parse(self, inputstring: str, document: nodes.document) -> None:
